@@ -212,13 +212,13 @@ def _pipeline_case(c):
     return Case(None, c.tag.replace('index/', 'pipeline/'), ('pipeline', kind, header, recs))
 
 
-def _lookup_case(kind, key, tag):
+def _lookup_case(kind, key, tag, spelling='int'):
     rows = _idx_by_key(kind).get(key, [])
     text = _read_txt(kind + '.txt')
     use = rows if kind == 'oui' else rows[:1]
     sl = ['%d:%d:%s' % (o, s, text[o:o + s].hex()) for o, s in use]
     line = 'ieee_lookup %s %d %s %s' % (kind, key, plist(['%d:%d:%d' % (key, o, s) for o, s in rows]), plist(sl))
-    return Case(line, 'lookup/%s/%s' % (kind, tag), ('lookup', kind, key))
+    return Case(line, 'lookup/%s/%s/%s' % (kind, tag, spelling), ('lookup', kind, key, spelling))
 
 
 def corpus():
@@ -387,7 +387,7 @@ def generate(rng, tier):
         n = len(keys) if kind == 'iab' else min(len(keys), 2500 * mult)
         pick = rng.sample(keys, n)
         for k in pick:
-            cases.append(_lookup_case(kind, k, 'registered'))
+            cases.append(_lookup_case(kind, k, 'registered', 'str' if rng.random() < 0.25 else 'int'))
         for k in dups + [keys[0], keys[-1]]:
             cases.append(_lookup_case(kind, k, 'dup-or-edge'))
         keyset = set(keys)
@@ -475,6 +475,15 @@ def _idmaps():
     return m
 
 
+def _oui_str(key):
+    return '%02X-%02X-%02X' % (key >> 16, (key >> 8) & 0xff, key & 0xff)
+
+
+def _iab_str(key):
+    v = key << 12
+    return '-'.join('%02X' % ((v >> sh) & 0xff) for sh in (40, 32, 24, 16, 8, 0))
+
+
 def _show_parsed(org, addr):
     return ('-' if not org else hexs(org)) + '/' + plist([hexs(a) for a in addr])
 
@@ -509,13 +518,14 @@ def impl(c):
             return '!' + errname(e)
         return ';'.join('%d=%s' % (k, '+'.join('%d:%d' % t for t in idx[k])) for k in sorted(idx))
     if a[0] == 'lookup':
-        _, kind, key = a
+        _, kind, key = a[:3]
+        spelling = a[3] if len(a) > 3 else 'int'
         try:
             if kind == 'oui':
-                o = OUI(key)
+                o = OUI(_oui_str(key) if spelling == 'str' else key)
                 recs = [o.registration(i) for i in range(o.reg_count)]
             else:
-                o = IAB(key << 12)
+                o = IAB(_iab_str(key) if spelling == 'str' else key << 12)
                 recs = [o.registration()]
             if int(o) != key:
                 return '!wrongvalue:%d' % int(o)
@@ -593,7 +603,7 @@ def oracle(c, got):
             return 'parser rows over shipped %s.txt differ from the shipped %s.idx' % (kind, kind)
         return None
     if a[0] == 'lookup':
-        _, kind, key = a
+        _, kind, key = a[:3]
         rows = _idx_by_key(kind).get(key, [])
         if not rows:
             return None if got == '!notRegistered' else 'identifier %#x has no index row but lookup gave %s' % (key, got[:120])
@@ -650,7 +660,9 @@ def repro(c):
     if a[0] == 'file':
         return "run netaddr.eui.ieee.%sIndexParser over the shipped %s.txt and compare with %s.idx" % (a[1].upper(), a[1], a[1])
     if a[0] == 'lookup':
+        st = len(a) > 3 and a[3] == 'str'
         if a[1] == 'oui':
-            return "from netaddr import OUI; o = OUI(%d); [dict(o.registration(i)) for i in range(o.reg_count)]" % a[2]
-        return "from netaddr import IAB; dict(IAB(%d).registration())" % (a[2] << 12)
+            return "from netaddr import OUI; o = OUI(%s); [dict(o.registration(i)) for i in range(o.reg_count)]" % (
+                repr(_oui_str(a[2])) if st else a[2])
+        return "from netaddr import IAB; dict(IAB(%s).registration())" % (repr(_iab_str(a[2])) if st else a[2] << 12)
     return "compare netaddr.eui.ieee.%s_INDEX with netaddr/eui/%s.idx and %s.txt" % (a[1].upper(), a[1], a[1])
